@@ -16,7 +16,7 @@ build of the same declared model in canonical order (see rsmc/ref/c09c15_*.py):
 import itertools
 
 PROPERTY = 'C09'
-TIMEOUT = 240.0
+TIMEOUT = 900.0
 CHUNK = 4
 FLOOR = 0.45
 RULE = ('leak: every ordered pair (thorough: triple) of (role, set kind) events in 2-4 orders; non-trivial = all '
@@ -41,6 +41,9 @@ ASSUMPTIONS = [
     'honest replays; the sequence-exhaustive pass uses no abstraction and no copies',
     'a compiled program is solved once per distinct numerical content (memo on a hash of all its arrays)',
     'an ECOS status other than Optimal / Primal infeasible / Dual infeasible is inconclusive (vacuous)',
+    'a declaration that the API refuses loudly AT HAND-OVER with SyntaxError (its order-of-declaration contract, e.g. '
+    '"Adaptation must be defined before the model is formulated") does not lead to a declared model: the history is '
+    'counted unsupported, not a violation; any other exception, or one raised later at formulation, is a disagreement',
 ]
 TRUSTED = ['CPython', 'NumPy', 'ECOS via rsome.eco_solver as the solver on both sides of the differential',
            'SciPy/HiGHS through rsome default solver on both sides', 'copy.deepcopy (graph pass only, guarded)']
@@ -210,8 +213,8 @@ def _leak_dro(thorough):
 # ------------------------------------------------------------------------------------------------ cache protocol
 RO_FULL = ['lin', 'bnd', 'soc', 'ipc', 'exp', 'rown', 'rdef', 'late', 'adapt']
 RO_CORE = ['exp', 'rdef', 'late', 'adapt']
-DRO_SMALL = ['lin', 'soc', 'rob', 'ecn', 'late', 'evt']
-DRO_QUICK = ['lin', 'rob', 'ecn', 'late', 'evt']
+DRO_SMALL = ['lin', 'soc', 'rob', 'ecn', 'late', 'evt', 'lsupp', 'lexp', 'lprob']
+DRO_QUICK = ['rob', 'ecn', 'late', 'evt', 'lsupp', 'lexp']
 OPS_ALL = ['P', 'D', 'S', 'Sd', 'Q', 'G']
 OPS_CORE = ['P', 'D', 'S', 'Q', 'G']
 OPS_DRO = ['P', 'D', 'S', 'G']
@@ -247,11 +250,12 @@ def _seq_cases(thorough):
 GRAPH_Q = [('ro', ['lin', 'exp', 'rdef', 'late'], ['P', 'D', 'S', 'Q', 'G']),
            ('ro', ['soc', 'ipc', 'rown', 'adapt'], ['P', 'D', 'S', 'Sd', 'G']),
            ('ro', ['bnd', 'exp', 'adapt', 'rown'], ['P', 'D', 'Sd', 'Q']),
-           ('dro', ['lin', 'rob', 'ecn'], ['P', 'D', 'S', 'G']),
-           ('dro', ['soc', 'evt', 'ecn'], ['P', 'D', 'S'])]
+           ('dro', ['rob', 'ecn', 'lsupp'], ['P', 'D', 'S', 'G']),
+           ('dro', ['evt', 'ecn', 'lexp'], ['P', 'D', 'S'])]
 GRAPH_T = [('ro', ['lin', 'bnd', 'exp', 'rdef', 'late', 'adapt'], ['P', 'D', 'S', 'Sd', 'Q', 'G']),
            ('ro', ['soc', 'ipc', 'exp', 'rown', 'rdef', 'adapt'], ['P', 'D', 'S', 'Sd', 'Q', 'G']),
-           ('dro', ['lin', 'soc', 'rob', 'ecn', 'evt'], ['P', 'D', 'S', 'G'])]
+           ('dro', ['lin', 'soc', 'rob', 'ecn', 'evt'], ['P', 'D', 'S', 'G']),
+           ('dro', ['rob', 'ecn', 'lsupp', 'lexp', 'lprob'], ['P', 'D', 'S', 'G'])]
 
 
 def _graph_cases(thorough):
@@ -306,7 +310,18 @@ def exhaustive(tier):
 
 def bounds(tier):
     th = tier == 'thorough'
-    return {'leak': {'set_kinds': len(KINDS), 'tuple': 3 if th else 2}}
+    return {'leak': {'set_kinds': len(KINDS), 'probability_set_kinds': len(PKINDS), 'tuple': 3 if th else 2,
+                     'ro_roles': 'decoy|real|superseded-default x forall|minmax|maxmin, orders AB|BA|BAB (+rvar noise)',
+                     'dro_orders': 'AB|BA|mix|late' if th else 'AB|BA'},
+            'seq': {'ro_full_alphabet': ['st:' + d for d in RO_FULL] + OPS_ALL, 'ro_full_depth': 4 if th else 3,
+                    'ro_core_alphabet': ['st:' + d for d in RO_CORE] + OPS_CORE, 'ro_core_depth': 5 if th else 4,
+                    'dro_alphabet': ['st:' + d for d in (DRO_SMALL if th else DRO_QUICK)] + OPS_DRO,
+                    'dro_depth': 4 if th else 3, 'implicit_final_checkpoint': 'solve(eco_solver)'},
+            'graph': {'universes': [list(u) for u in (GRAPH_Q + (GRAPH_T if th else []))],
+                      'bound': 'fixpoint of the abstract state graph (cap %d transitions per universe, a capped '
+                               'universe is reported vacuous)' % (40000 if th else 8000)},
+            'order': {'ro_declarations': 7, 'dro_declarations': 7, 'noise_events': 2 if th else 1},
+            'alias': {'expression_kinds': 5, 'ordered_pairs': 'all'}}
 
 
 # ------------------------------------------------------------------------------------------------
